@@ -41,8 +41,16 @@ theorem evalInsert_go_total (db : Engine.DB) (table : Bytes) (cols : List Bytes)
       obtain ⟨e, s', he, _⟩ := insert_refused_abs h table t ht schema hsch cols r hrow
       exact .inr ⟨.store e, { db with store := s' }, evalInsert_go_err db table cols r rest s s' batch n e he, rfl⟩
     | some vs =>
+      cases hcc : checkColumns schema (colsOf schema (cols.map Engine.bytesToName)) with
+      | some ec =>
+        -- the column list names an unknown column, or one column twice
+        have hlen := ((specRowOf_some_iff _ cols r vs).mp hrow).1
+        obtain ⟨s', he, _⟩ := insert_names_refused_cat h.cat table t ht schema hsch _ r ec hlen hcc
+        exact .inr ⟨.store ec, { db with store := s' }, evalInsert_go_err db table cols r rest s s' batch n ec he,
+          rfl⟩
+      | none =>
       obtain ⟨s1, ptF1, logs1, buf, t1, nf1, e1, henc, hins, habs1, hlk1, hnf1, hlsn1⟩ :=
-        insert_step h table t ht schema hsch cols r vs (hvalid r List.mem_cons_self) hrow
+        insert_step h table t ht schema hsch cols r vs (hvalid r List.mem_cons_self) hrow hcc
           (fun buf t' nf' he hi => by
             obtain ⟨a, b, c, _⟩ := hrun buf t' nf' he hi
             exact ⟨a, b, c⟩)
@@ -100,7 +108,8 @@ theorem evalDelete_total (db : Engine.DB) (pt sch : Levels) (tbls : List (Bytes 
 
 /-- the loop of `evalUpdate` over distinct row ids of live cells that decode never crashes -/
 theorem evalUpdate_go_total (db : Engine.DB) (table : Bytes) (pt sch : Levels) (schema : List FieldDef)
-    (hsch : schemaOf sch table = some schema) (sets : List (Bytes × Sql.VExpr)) :
+    (hsch : schemaOf sch table = some schema) (sets : List (Bytes × Sql.VExpr))
+    (hnames : checkColumns schema (sets.map fun p => Engine.bytesToName p.1) = none) :
     ∀ (ids : List (Nat × List Val)) (s : Store) (tbls : List (Bytes × Levels)) (t : Levels)
       (batch : List WalRec),
       Cat s pt sch tbls → (table, t) ∈ tbls → (ids.map (·.1)).Nodup →
@@ -113,7 +122,7 @@ theorem evalUpdate_go_total (db : Engine.DB) (table : Bytes) (pt sch : Levels) (
     obtain ⟨c, hc, hck, m, hdec⟩ := hlive r List.mem_cons_self
     cases hsa : specAssign schema sets (schema.map fun fd => get m fd.name) with
     | none =>
-      obtain ⟨e, s', he, _⟩ := update_refused_cat h table t ht schema hsch sets c hc m hdec hsa
+      obtain ⟨e, s', he, _⟩ := update_refused_cat h table t ht schema hsch sets hnames c hc m hdec hsa
       rw [hck] at he
       exact .inr ⟨.store e, { db with store := s' }, evalUpdate_go_first_err db table _ _ r rest s s' batch e he, rfl⟩
     | some v =>
@@ -124,11 +133,11 @@ theorem evalUpdate_go_total (db : Engine.DB) (table : Bytes) (pt sch : Levels) (
       obtain ⟨s1, l, d, _, _, e1, hc1, _⟩ := update_cat h table t ht schema hsch r.1
         (sets.map fun p => Engine.bytesToName p.1)
         (sets.map fun p => match p.2 with | .lit l => Engine.litToVal l | .col _ => Val.null)
-        c hc hck m buf hdec henc' hsz
+        hnames c hc hck m buf hdec henc' hsz
       have hlive1 : live (setVal t r.1 s.hdr.nextLSN buf) =
           (live t).map (fun c => if c.key == r.1 then { c with val := buf } else c) :=
         update_live t r.1 s.hdr.nextLSN buf
-      have ih := evalUpdate_go_total db table pt sch schema hsch sets rest s1
+      have ih := evalUpdate_go_total db table pt sch schema hsch sets hnames rest s1
         (setTable tbls table (setVal t r.1 s.hdr.nextLSN buf)) (setVal t r.1 s.hdr.nextLSN buf)
         (batch ++ [⟨c_OpUpdate, s.hdr.nextLSN, l.off, r.1, buf⟩]) hc1 (mem_setTable_self _ ht) hnd.2
         (fun r' hr' => by
@@ -161,6 +170,14 @@ theorem evalUpdate_total (db : Engine.DB) (pt sch : Levels) (tbls : List (Bytes 
       obtain ⟨schema, hsch, hdec, hfind⟩ := habs.tabs.find habs.cat.tnames ht
       obtain ⟨s1, efetch, hs1, hc1⟩ := fetchTable_cat habs.cat table e.2 ht schema hsch hdec
       simp only [Engine.fetchForExec, Engine.liftS, efetch]
+      cases hset : Engine.checkSetColumns (schema.map fun fd => (⟨[], fd.name.toUTF8.toList⟩ : Exec.Field)) []
+          (sets.map (·.1)) with
+      | some ec => exact .inr ⟨.store ec, _, rfl, rfl⟩
+      | none =>
+      have hcc : checkColumns schema (sets.map fun p => Engine.bytesToName p.1) = none := by
+        have := checkSetColumns_none_checkColumns schema _ hset
+        rwa [List.map_map] at this
+      simp only
       cases hsel : Spec.selects (absTable table schema e.2) w with
       | none =>
         obtain ⟨x, efilter⟩ := filterIds_fail table schema (rowsOf schema (live e.2)) (fun r hr => rowsOf_len hr) w hsel
@@ -173,7 +190,7 @@ theorem evalUpdate_total (db : Engine.DB) (pt sch : Levels) (tbls : List (Bytes 
         have hnd : ((rowsOf schema (live e.2)).map (·.1)).Nodup := by
           rw [rowsOf_keys schema (live e.2) hdec]
           exact live_keys_nodup hIt.asc
-        exact evalUpdate_go_total db table pt sch schema hsch sets _ s1 tbls e.2 [] hc1 ht
+        exact evalUpdate_go_total db table pt sch schema hsch sets hcc _ s1 tbls e.2 [] hc1 ht
           (hnd.sublist ((selRows_sublist _ sel).map _))
           (fun r hr => by
             obtain ⟨c, hc, hck, m, hm, _⟩ := mem_rowsOf_cell ((selRows_sublist _ sel).subset hr)
